@@ -287,6 +287,7 @@ class Ctx(object):
         self.notes = {}
         self.t0 = time.time()
         self._pool = None
+        scratch_root()   # created before forking so that workers share it and the parent removes it
 
     @property
     def thorough(self):
